@@ -1,7 +1,7 @@
 CONSTANTS
   SuffixUsesStaleLine = FALSE
   Alphabet <- SoupElse
-  MaxLen = 6
+  MaxLen = 4
 INIT Init
 NEXT Next
 INVARIANT ParserTotal
